@@ -56,6 +56,8 @@ structure Frame (c : Str) (m m' : Mgr) : Prop where
   keep : ∀ k p ci, m.look k = some p → m.heap[p]? = some ci → ci.cluster ≠ c →
           m'.look k = some p ∧ m'.heap[p]? = some ci ∧ (p ∈ m'.stopped ↔ p ∈ m.stopped)
   only : ∀ k, m'.look k = m.look k ∨ clusterAt m' k = some c ∨ clusterAt m k = some c
+  back : ∀ k p ci, m'.look k = some p → m'.heap[p]? = some ci → ci.cluster ≠ c →
+          m.look k = some p ∧ m.heap[p]? = some ci
 
 def frameB (c : Str) (m m' : Mgr) : Bool :=
   (m.map.all fun e =>
@@ -72,6 +74,14 @@ def frameB (c : Str) (m m' : Mgr) : Bool :=
         || decide (clusterAt m e.1 = some c))
   && (m.map.all fun e => decide (m'.look e.1 = m.look e.1) || decide (clusterAt m' e.1 = some c)
         || decide (clusterAt m e.1 = some c))
+  && (m'.map.all fun e =>
+    match m'.look e.1 with
+    | none => true
+    | some p =>
+      match m'.heap[p]? with
+      | none => true
+      | some ci =>
+        decide (ci.cluster = c) || (decide (m.look e.1 = some p) && decide (m.heap[p]? = some ci)))
 
 /-- nothing observable changed -/
 structure Unchanged (m m' : Mgr) : Prop where
